@@ -2,7 +2,7 @@
 import re
 from lib import fw
 
-MODULES = ["SunriseVerif.Props.C01", "SunriseVerif.Props.C01DA", "SunriseVerif.Props.C01Gauge", "SunriseVerif.Props.ParamGuards", "SunriseVerif.Props.ParamGuardsDA"]
+MODULES = ["SunriseVerif.Props.C01", "SunriseVerif.Props.C01DA", "SunriseVerif.Props.C01Gauge", "SunriseVerif.Props.C01Proposal", "SunriseVerif.Props.ParamGuards", "SunriseVerif.Props.ParamGuardsDA"]
 
 
 def feats(f):
@@ -31,6 +31,23 @@ def run(ctx):
             continue
         r["oracle_fails"] = [f for f in r["oracle_fails"] if f["check"] in ("no_halt", "no_hang")]
         fw.report_corr(ctx, suite, r, known_features=lambda f: {"suite_class": _halt_class(f)})
+    # app/abci_proposal.go (PrepareProposal / ProcessProposal / PreBlocker of the DA handler): model vs the real handler line by
+    # line (index order, prepared bytes, verdicts on honest and byzantine proposals, post-PreBlocker stores, the wrapper codec),
+    # oracles no_halt / honest_accepted / prepare_within_max_bytes / finalize_independent_of_proposals / preblock_sets_listed
+    rp = fw.corr(ctx, "proposal", 14 if ctx.thorough() else 2, timeout=1500)
+    fw.report_corr(ctx, "proposal", rp, known_features=lambda f: {"class": _halt_class(f)})
+    if rp is not None:
+        # a disagreement comes with the concrete operation (state dump + proposal bytes) on which the handler left the model
+        for m in rp["mismatches"][:1]:
+            for f in ctx.failures:
+                if f.kind == "correspondence" and f.what.endswith("suite proposal") and f.replay is None:
+                    f.replay = {"suite": "proposal", "seed": ctx.seed, "impl": m["impl"], "model": m["model"], "history": m["history"][-6:]}
+        st = rp["stats"]
+        # the generator must have reached the situations the theorems are about (otherwise the agreement is vacuous)
+        for k in ("block.with_verified_items", "byz.verdict_reject", "byz.verdict_accept", "preblock.height_written",
+                  "decided.byzantine", "entry.repeated_field1", "entry.field_number_mod_2_32", "byz.splitter_before_user_txs"):
+            if st.get(k, 0) == 0:
+                ctx.fail("correspondence", "proposal suite never reached " + k, "generator coverage", replay=None)
     if ctx.thorough() and ok:
         ctx.leanchecker(MODULES)
 
